@@ -65,7 +65,7 @@ partial def closure (P : Params) (ws : List World) : Option (List World) :=
           if acc.2.contains s then acc else (s :: acc.1, acc.2.insert s)) (rest, seen)
         go fr sn quiet (budget - 1)
   let seen0 : Std.HashSet World := ws.foldl (fun s w => s.insert w) {}
-  go ws seen0 [] 200000
+  go ws seen0 [] 400000
 
 def isWorker : L → Bool
   | .w0 | .wexec _ | .wsend _ | .wdone | .e0 _ | .eexec _ | .esend _ | .eexit | .eexit2 => true
